@@ -2,6 +2,7 @@ package c19
 
 import (
 	"fmt"
+	"strings"
 
 	"github.com/ajitpratap0/GoSQLX/pkg/gosqlx"
 	"github.com/ajitpratap0/GoSQLX/pkg/linter"
@@ -39,6 +40,9 @@ func libVerdict(sql, dialect string) (v verdict) {
 			v = either
 		}
 	}()
+	if strings.TrimSpace(sql) == "" {
+		return either
+	}
 	if dialect != "" {
 		if parser.ValidateWithDialect(sql, keywords.SQLDialect(dialect)) == nil {
 			return accept
